@@ -1103,6 +1103,9 @@ class Columns(Widget, WidgetContainerMixin, WidgetContainerListContentsMixin):
 
         x = 0
         for i, (width, w_size, (w, _)) in enumerate(zip(widths, size_args, self.contents)):
+            if width <= 0:
+                # hidden column: render() draws neither it nor its divider
+                continue
             if col < x:
                 return False
             w = self.contents[i][0]  # noqa: PLW2901
